@@ -1,9 +1,11 @@
 import LlgoVerif.Lemmas.Slice
+import LlgoVerif.Lemmas.StrHeap
 /-!
 # C05 — slices and strings: append, copy, slicing, iteration and conversion semantics
 
-Property theorems only.  Model: `LlgoVerif/Model/Slice.lean` (+ `Model/Utf8.lean`); specification vocabulary:
-`LlgoVerif/Spec/Slice.lean`; lemmas: `LlgoVerif/Lemmas/Slice.lean`.
+Property theorems only.  Model: `LlgoVerif/Model/Slice.lean` (+ `Model/Utf8.lean`), `Model/Slice64.lean` (the same
+arithmetic on int64 / uintptr), `Model/StrHeap.lean` (strings as headers over the byte heap, C strings); specification
+vocabulary: `LlgoVerif/Spec/Slice.lean`; lemmas: `LlgoVerif/Lemmas/{Slice,Slice64,StrHeap}.lean`.
 
 `Cfg.current` is the unchanged tree, `Cfg.fixed` the tree with `fixes/C05-1.diff`.  On the unchanged tree the full
 `append` statement is **false** (two independent counterexamples below, both replayed on the real code by the check);
@@ -221,5 +223,234 @@ theorem stringFromInt (r : Int) (u : Nat) :
 
 example : (-2 ^ 31 ≤ (-1 : Int) ∧ (-1 : Int) < 2 ^ 31) ∧ StringFromInt64 0xD800 = [0xEF, 0xBF, 0xBD] ∧
     StringFromInt64 (-7) = [0xEF, 0xBF, 0xBD] ∧ StringFromInt64 0x20AC = [0xE2, 0x82, 0xAC] := by decide
+
+/-! ## machine integers: no wrapped size is ever allocated -/
+
+/-- **`MakeSlice` on all of int64**: the call succeeds iff `0 ≤ len ≤ cap` and the TRUE byte size `cap·etSize` is at
+    most `maxAlloc = 2^48` (the `math.MulUintptr` overflow flag and the `uintptr` conversions never let a wrapped
+    product through), and the block it allocates then has exactly the true size; everything else panics -/
+theorem makeSlice_exact (m : Mem) (len cap esz : Int) (hc : InI64 cap) (he : 0 ≤ esz ∧ esz < 2 ^ 63) :
+    (0 ≤ len ∧ len ≤ cap ∧ cap * esz ≤ 2 ^ 48 →
+      MakeSlice m len cap esz = .ok ((allocZ m (cap * esz).toNat).2, ⟨m.next, len, cap⟩)) ∧
+    (¬ (0 ≤ len ∧ len ≤ cap ∧ cap * esz ≤ 2 ^ 48) → MakeSlice m len cap esz = .error .panic) :=
+  makeSlice_exact' m len cap esz hc he
+
+example : InI64 (2 ^ 61) ∧ (0 : Int) ≤ 8 ∧ (8 : Int) < 2 ^ 63 ∧ ¬ ((0 : Int) ≤ 1 ∧ (1 : Int) ≤ 2 ^ 61 ∧ (2 : Int) ^ 61 * 8 ≤ 2 ^ 48) := by
+  decide
+
+/-- **`nextslicecap` on int64** (loop `newcap += (newcap + 768) >> 2` with wrap-around, unsigned exit test, the
+    `newcap <= 0` overflow test): for every positive `newLen` and every old capacity `≥ 0` the function terminates and
+    returns a representable capacity `≥ newLen` — never a wrapped or negative one -/
+theorem nextslicecap64_spec (newLen oldCap : Int) (hL : 0 < newLen ∧ newLen < 2 ^ 63) (hc : 0 ≤ oldCap ∧ oldCap < 2 ^ 63) :
+    ∃ r, nextslicecap64 newLen oldCap = some r ∧ newLen ≤ r ∧ r < 2 ^ 63 :=
+  nextslicecap64_spec' newLen oldCap hL hc
+
+example : (0 : Int) < 2 ^ 63 - 5 ∧ (2 : Int) ^ 63 - 5 < 2 ^ 63 ∧ (0 : Int) ≤ 2 ^ 62 - 1 ∧ (2 : Int) ^ 62 - 1 < 2 ^ 63 := by decide
+
+/-- up to `2^62` the int64 policy is the mathematical one of `Model/Slice.lean` (`nextslicecap_ge` applies) -/
+theorem nextslicecap64_eq (newLen oldCap : Int) (hL : 0 < newLen ∧ newLen ≤ 2 ^ 62) (hc : 0 ≤ oldCap ∧ oldCap < newLen) :
+    nextslicecap64 newLen oldCap = some (nextslicecap newLen oldCap) :=
+  nextslicecap64_eq' newLen oldCap hL hc
+
+example : (0 : Int) < 300 ∧ (300 : Int) ≤ 2 ^ 62 ∧ (0 : Int) ≤ 256 ∧ (256 : Int) < 300 := by decide
+
+/-- **`GrowSlice` on int64**: for every slice and count that can exist (`GrowLegit`; zero-size elements with lengths up
+    to `2^63 - 1` included) in allocated memory, when the true new length is representable: the call succeeds with
+    `len' = len + num`, a representable `cap' ≥ len'`, the old storage iff the capacity sufficed, and — when it grows —
+    a block of exactly the TRUE size `cap'·etSize` (no product wraps) -/
+theorem growSlice64_spec (lc : Bool) (m : Mem) (s : Slice) (num esz : Int) (h : GrowLegit s num esz)
+    (hwf : WF m s esz) (hsum : s.len + num < 2 ^ 63) :
+    ∃ m' s', GrowSlice64 lc m s num esz = .ok (m', s') ∧ s'.len = s.len + num ∧ s'.len ≤ s'.cap ∧ s'.cap < 2 ^ 63 ∧
+      (s'.data = s.data ↔ s.len + num ≤ s.cap) ∧
+      (s.len + num ≤ s.cap → m' = m ∧ s'.cap = s.cap) ∧
+      (s.len + num > s.cap → s'.data = m.next ∧ m'.next = m.next + (s'.cap * esz).toNat + 1) :=
+  growSlice64_spec' lc m s num esz h hwf hsum
+
+/-- non-vacuity: 2^62 zero-size elements plus 2^62 - 1 more (true sum 2^63 - 1), and an ordinary 24-byte-element slice -/
+example : GrowLegit ⟨1, 2 ^ 62, 2 ^ 62⟩ (2 ^ 62 - 1) 0 ∧ WF ⟨fun _ => 0, 2⟩ ⟨1, 2 ^ 62, 2 ^ 62⟩ 0 ∧
+    ((2 : Int) ^ 62 + (2 ^ 62 - 1) < 2 ^ 63) ∧ GrowLegit ⟨1, 3, 4⟩ 2 24 ∧ WF ⟨fun _ => 0, 200⟩ ⟨1, 3, 4⟩ 24 :=
+  ⟨by decide, ⟨by decide, by decide, by decide, by decide⟩, by decide, by decide,
+   ⟨by decide, by decide, by decide, by decide⟩⟩
+
+/-- **bridge**: for new lengths up to `2^62` the int64 `GrowSlice` / `SliceAppend` ARE the mathematical-integer
+    functions of `Model/Slice.lean` with the code's own policy, so every theorem above about `SliceAppend Cfg.fixed`
+    is a theorem about the machine-level function -/
+theorem growSlice64_eq_model (lc : Bool) (m : Mem) (s : Slice) (num esz : Int) (h : GrowLegit s num esz)
+    (hL : s.len + num ≤ 2 ^ 62) :
+    GrowSlice64 lc m s num esz = lift64 (GrowSlice nextslicecap m s num esz) :=
+  growSlice64_eq_model' lc m s num esz h hL
+
+theorem sliceAppend64_eq_model (lc : Bool) (m : Mem) (s : Slice) (data : Nat) (num esz : Int)
+    (h : GrowLegit s num esz) (hL : s.len + num ≤ 2 ^ 62) :
+    SliceAppend64 lc m s data num esz = lift64 (SliceAppend Cfg.fixed nextslicecap m s data num esz) :=
+  sliceAppend64_eq_model' lc m s data num esz h hL
+
+example : GrowLegit ⟨1, 3, 4⟩ 2 24 ∧ ((3 : Int) + 2 ≤ 2 ^ 62) := by decide
+
+/-- **append on int64**: the full `append` statement for the machine-level function -/
+theorem append64_spec (lc : Bool) (m : Mem) (s : Slice) (data : Nat) (num esz : Int) (h : GrowLegit s num esz)
+    (hL : s.len + num ≤ 2 ^ 62) (hwf : WF m s esz) (hsrc : data + (num * esz).toNat ≤ m.next) :
+    ∃ m' s', SliceAppend64 lc m s data num esz = .ok (m', s') ∧
+      s'.len = s.len + num ∧ s'.len ≤ s'.cap ∧
+      view m' s' esz = view m s esz ++ m.read data (num * esz).toNat ∧
+      (s'.data = s.data ↔ s.len + num ≤ s.cap) ∧
+      (∀ a, a < m.next →
+        ¬ (s.len + num ≤ s.cap ∧ s.data + (s.len * esz).toNat ≤ a ∧ a < s.data + ((s.len + num) * esz).toNat) →
+        m'.bytes a = m.bytes a) ∧
+      WF m' s' esz ∧ m.next ≤ m'.next := by
+  obtain ⟨m', s', heq, rest⟩ := append_spec_nextslicecap m s data num esz h.2.2.2.2.2.1 h.2.2.2.1 hwf hsrc
+  refine ⟨m', s', ?_, rest⟩
+  rw [sliceAppend64_eq_model lc m s data num esz h hL, heq]; rfl
+
+example : GrowLegit ⟨1, 2, 4⟩ 2 8 ∧ ((2 : Int) + 2 ≤ 2 ^ 62) ∧ WF ⟨fun _ => 0, 64⟩ ⟨1, 2, 4⟩ 8 ∧
+    40 + ((2 : Int) * 8).toNat ≤ 64 :=
+  ⟨by decide, by decide, ⟨by decide, by decide, by decide, by decide⟩, by decide⟩
+
+/-- **Unchanged tree, finding 4.** `s := make([]struct{}, 1<<62); s = append(s, s...); append(s, s...)`-style growth:
+    `newLen = 2^62 + 2^62` wraps to `-2^63`, the test `newLen > cap` is false, and `GrowSlice` returns a slice of length
+    `-2^63` instead of panicking (Go: "growslice: len out of range"). -/
+theorem growSlice64_len_overflow_counterexample : ¬ GrowLenFull false := by
+  intro h
+  have := h ⟨fun _ => 0, 2⟩ ⟨1, 2 ^ 62, 2 ^ 62⟩ (2 ^ 62) 0 (by decide) ⟨by decide, by decide, by decide, by decide⟩
+  rcases this with ⟨heq, _⟩ | ⟨m', s', heq, hlen, _⟩
+  · simp [GrowSlice64, wrap] at heq
+  · simp [GrowSlice64, wrap] at heq
+    rw [← heq.2] at hlen
+    simp at hlen
+
+/-- with `fixes/C05-3.diff` (`if newLen < 0 { panic }`) the full statement holds -/
+theorem growSlice64_len_fixed : GrowLenFull true := growSlice64_len_fixed'
+
+/-- unchanged tree, under the decidable hypothesis that the true new length is representable -/
+theorem growSlice64_len_partial (m : Mem) (s : Slice) (num esz : Int) (h : GrowLegit s num esz) (hwf : WF m s esz)
+    (hsum : s.len + num < 2 ^ 63) :
+    ∃ m' s', GrowSlice64 false m s num esz = .ok (m', s') ∧ s'.len = s.len + num ∧ s'.len ≤ s'.cap := by
+  obtain ⟨m', s', heq, hl, hc, _⟩ := growSlice64_spec false m s num esz h hwf hsum
+  exact ⟨m', s', heq, hl, hc⟩
+
+example : GrowLegit ⟨1, 2 ^ 62, 2 ^ 62⟩ 5 0 ∧ WF ⟨fun _ => 0, 2⟩ ⟨1, 2 ^ 62, 2 ^ 62⟩ 0 ∧ ((2 : Int) ^ 62 + 5 < 2 ^ 63) :=
+  ⟨by decide, ⟨by decide, by decide, by decide, by decide⟩, by decide⟩
+
+/-! ## strings over the heap: conversions copy, slicing shares -/
+
+/-- **`string(b)` copies**: the result holds the slice's bytes in a fresh block (it starts at the first address that
+    was never allocated), memory allocated before is untouched, and NO later write into memory that existed before the
+    call — in particular into `b`'s own array — changes the string -/
+theorem bytes_to_string_copies (m : Mem) (b : Slice) (hwf : WF m b 1) (hcap : b.cap < 2 ^ 63) :
+    ∃ m' s, StringFromBytesH m b = .ok (m', s) ∧ s.len = b.len ∧ strBytes m' s = view m b 1 ∧
+      (b.len ≠ 0 → s.data = m.next) ∧ (∀ a, a < m.next → m'.bytes a = m.bytes a) ∧
+      (∀ a bs, a + bs.length ≤ m.next → strBytes (m'.blit a bs) s = strBytes m' s) := by
+  obtain ⟨h0, h1, h2, h3⟩ := hwf
+  simp only [Int.mul_one] at h3
+  by_cases hz : b.len = 0
+  · refine ⟨m, ⟨0, 0⟩, by simp [StringFromBytesH, StringFrom, hz], hz.symm, ?_, fun h => absurd hz h, fun _ _ => rfl, ?_⟩
+    · simp [strBytes, view, hz, Mem.read]
+    · intro a bs _; simp [strBytes, Mem.read]
+  · obtain ⟨m', heq, hb, hfr, _⟩ := stringFrom_spec m b.data b.len ⟨by omega, by omega⟩ (by omega)
+    refine ⟨m', _, heq, rfl, ?_, fun _ => rfl, hfr, ?_⟩
+    · rw [hb]; simp [view]
+    · intro a bs ha
+      apply strBytes_agree
+      intro i _
+      exact blit_bytes_out _ _ _ _ (by simp only; omega)
+
+example : WF ⟨fun _ => 7, 64⟩ ⟨10, 3, 5⟩ 1 ∧ (5 : Int) < 2 ^ 63 := ⟨⟨by decide, by decide, by decide, by decide⟩, by decide⟩
+
+/-- **`[]byte(s)` never aliases `s`**: the result is a fresh slice (`len = cap = len(s)`) holding the string's bytes;
+    `s` and everything else allocated before are untouched, and no later write through the result (any address from
+    the fresh block on) changes `s` -/
+theorem string_to_bytes_fresh (m : Mem) (s : Str) (hs : SWF m s) (hmax : s.len ≤ 2 ^ 48) :
+    ∃ m' d, StringToBytesH m s = .ok (m', d) ∧ d.len = s.len ∧ d.cap = s.len ∧ view m' d 1 = strBytes m s ∧
+      (s.len ≠ 0 → d.data = m.next) ∧ (∀ a, a < m.next → m'.bytes a = m.bytes a) ∧
+      (∀ a bs, m.next ≤ a → strBytes (m'.blit a bs) s = strBytes m s) := by
+  by_cases hz : s.len = 0
+  · refine ⟨m, ⟨0, 0, 0⟩, by simp [StringToBytesH, hz], hz.symm, hz.symm, ?_, fun h => absurd hz h, fun _ _ => rfl, ?_⟩
+    · simp [strBytes, view, hz, Mem.read]
+    · intro a bs _; simp [strBytes, hz, Mem.read]
+  · obtain ⟨m', heq, hv, hfr, _⟩ := stringToBytes_spec m s hs (by have := hs.len_nonneg; omega) hmax
+    refine ⟨m', _, heq, rfl, rfl, hv, fun _ => rfl, hfr, ?_⟩
+    intro a bs ha
+    apply strBytes_agree
+    intro i hi
+    have := hs.inb
+    rw [blit_bytes_out _ _ _ _ (by omega), hfr _ (by omega)]
+
+example : SWF ⟨fun _ => 7, 64⟩ ⟨10, 3⟩ ∧ (3 : Int) ≤ 2 ^ 48 := ⟨⟨by decide, by decide, by decide⟩, by decide⟩
+
+/-- **`s[i:j]` shares**: it panics iff `¬ (0 ≤ i ≤ j ≤ len)`; otherwise nothing is allocated or copied, the result has
+    length `j - i`, starts `i` bytes into `s` (a non-empty result always does), and in EVERY memory its bytes are the
+    bytes `i … j-1` of `s` — so it computes the byte-list `StringSlice` of the ordering/UTF-8 theorems -/
+theorem string_slice_shares (base : Str) (i j : Int) (hb : 0 ≤ base.len) :
+    (StringSliceH base i j = .error .panic ↔ ¬ (0 ≤ i ∧ i ≤ j ∧ j ≤ base.len)) ∧
+    (0 ≤ i ∧ i ≤ j ∧ j ≤ base.len →
+      ∃ r, StringSliceH base i j = .ok r ∧ r.len = j - i ∧ (i < base.len → r.data = base.data + i.toNat) ∧
+        ∀ m, strBytes m r = ((strBytes m base).drop i.toNat).take (j - i).toNat ∧
+             StringSlice (strBytes m base) i j = .ok (strBytes m r)) := by
+  constructor
+  · constructor
+    · intro h hc
+      obtain ⟨r, hr, _⟩ := stringSliceH_ok base i j hc
+      rw [hr] at h; cases h
+    · exact stringSliceH_panic base i j
+  · intro h
+    obtain ⟨r, hr, hl, hd, _⟩ := stringSliceH_ok base i j h
+    refine ⟨r, hr, hl, hd, fun m => ?_⟩
+    have hbytes := stringSliceH_bytes base i j h r hr m
+    refine ⟨hbytes, ?_⟩
+    rw [stringSlice_spec, if_pos (by rw [strBytes_length]; omega), hbytes]
+
+example : (0 : Int) ≤ 5 ∧ ((0 : Int) ≤ 1 ∧ (1 : Int) ≤ 3 ∧ (3 : Int) ≤ 5) ∧ StringSliceH ⟨10, 5⟩ 1 3 = .ok ⟨11, 2⟩ :=
+  ⟨by decide, by decide, by simp [StringSliceH, advance]⟩
+
+/-- **`s + t` copies both operands** into one fresh block (also when they alias or overlap each other): no `memcpy`
+    on intersecting ranges, the result is the byte-list concatenation, earlier memory is untouched -/
+theorem stringCat_heap (m : Mem) (a b : Str) (ha : SWF m a) (hb : SWF m b) (hsum : a.len + b.len < 2 ^ 63) :
+    ∃ m', StringCatH m a b = .ok (m', ⟨m.next, a.len + b.len⟩) ∧
+      strBytes m' ⟨m.next, a.len + b.len⟩ = StringCat (strBytes m a) (strBytes m b) ∧
+      (∀ x, x < m.next → m'.bytes x = m.bytes x) ∧ m'.next = m.next + (a.len + b.len).toNat + 1 :=
+  stringCatH_spec m a b ha hb hsum
+
+example : SWF ⟨fun _ => 7, 64⟩ ⟨10, 3⟩ ∧ SWF ⟨fun _ => 7, 64⟩ ⟨11, 4⟩ ∧ ((3 : Int) + 4 < 2 ^ 63) :=
+  ⟨⟨by decide, by decide, by decide⟩, ⟨by decide, by decide, by decide⟩, by decide⟩
+
+/-! ## C strings -/
+
+/-- **`CStrCopy` writes exactly `len + 1` bytes**: the string's bytes (embedded NULs included) followed by one NUL;
+    every other byte of memory keeps its value (no overrun of the destination) -/
+theorem cstrCopy_exact (m : Mem) (dest : Nat) (s : Str) (hs : SWF m s) (hno : ¬ overlaps dest s.data s.len.toNat) :
+    ∃ m', CStrCopy m dest s = .ok (m', dest) ∧
+      m'.read dest (s.len.toNat + 1) = strBytes m s ++ [0] ∧
+      (∀ x, ¬ (dest ≤ x ∧ x < dest + s.len.toNat + 1) → m'.bytes x = m.bytes x) ∧ m'.next = m.next :=
+  cstrCopy_spec m dest s hs hno
+
+example : SWF ⟨fun _ => 7, 64⟩ ⟨10, 3⟩ ∧ ¬ overlaps 20 10 3 := ⟨⟨by decide, by decide, by decide⟩, by decide⟩
+
+/-- **Go string → C string → Go string.**  `CStrDup(s)` returns a fresh block holding all bytes of `s` and a
+    terminating NUL; `StringFromCStr` of it is a fresh Go string holding the bytes of `s` BEFORE ITS FIRST NUL BYTE
+    (`takeWhile (· ≠ 0)`): byte for byte `s` itself when `s` contains no NUL, a proper prefix otherwise.  Memory
+    allocated before is untouched; the result does not alias the C buffer. -/
+theorem cstr_roundtrip (m : Mem) (s : Str) (hm : 0 < m.next) (hs : SWF m s) :
+    ∃ m1 p, CStrDup m s = .ok (m1, p) ∧ p = m.next ∧
+      m1.read p (s.len.toNat + 1) = strBytes m s ++ [0] ∧
+      ∃ m2 t, StringFromCStr m1 p = .ok (m2, t) ∧
+        strBytes m2 t = (strBytes m s).takeWhile (· != 0) ∧
+        (t.len ≠ 0 → t.data = m1.next) ∧
+        (∀ x, x < m1.next → m2.bytes x = m1.bytes x) ∧ (∀ x, x < m.next → m2.bytes x = m.bytes x) :=
+  cstr_roundtrip' m s hm hs
+
+/-- the round trip is the identity exactly on NUL-free strings -/
+theorem cstr_roundtrip_nonul (B : List Nat) :
+    (B.takeWhile (· != 0) = B ↔ ∀ x ∈ B, x ≠ 0) ∧ (B.takeWhile (· != 0)).length ≤ B.length ∧
+    B.takeWhile (· != 0) = B.take (B.takeWhile (· != 0)).length := by
+  refine ⟨⟨fun h x hx => ?_, takeWhile_nonul B⟩, (takeWhile_facts B).1, (takeWhile_facts B).2.2.2⟩
+  rw [← h] at hx
+  exact mem_takeWhile_ne B x hx
+
+/-- non-vacuity, and the two behaviours on concrete strings: "ab" survives, "a\0b" comes back as "a" -/
+example : (0 : Nat) < 64 ∧ SWF ⟨fun _ => 7, 64⟩ ⟨10, 3⟩ ∧ [0x61, 0x62].takeWhile (· != 0) = [0x61, 0x62] ∧
+    [0x61, 0, 0x62].takeWhile (· != 0) = [0x61] := ⟨by decide, ⟨by decide, by decide, by decide⟩, by decide, by decide⟩
+
+/-- `StringFromCStr(nil)` is the empty string -/
+theorem stringFromCStr_nil (m : Mem) : StringFromCStr m 0 = .ok (m, ⟨0, 0⟩) := by simp [StringFromCStr]
 
 end LlgoVerif.Slice
